@@ -50,6 +50,61 @@ def latin1 (b : Bytes) : Str := b.map (fun x => Char.ofNat x.toNat)
 /-- `b.decode("ascii")`: `none` = UnicodeDecodeError -/
 def asciiDecode (b : Bytes) : Option Str := if b.all (fun x => x.toNat < 128) then some (latin1 b) else none
 
+/-- a UTF-8 continuation byte -/
+def isCont (b : UInt8) : Bool := 0x80 ≤ b.toNat && b.toNat < 0xC0
+
+/-- `b.decode("utf8")` (strict, as CPython: no overlong forms, no surrogates, nothing above U+10FFFF): `none` = UnicodeDecodeError -/
+def utf8Decode : Bytes → Option Str
+  | [] => some []
+  | b0 :: rest =>
+    if b0.toNat < 0x80 then (utf8Decode rest).map (fun s => Char.ofNat b0.toNat :: s)
+    else if b0.toNat < 0xC2 then none
+    else if b0.toNat < 0xE0 then
+      match rest with
+      | b1 :: r =>
+        if isCont b1 then (utf8Decode r).map (fun s => Char.ofNat ((b0.toNat - 0xC0) * 64 + (b1.toNat - 0x80)) :: s) else none
+      | _ => none
+    else if b0.toNat < 0xF0 then
+      match rest with
+      | b1 :: b2 :: r =>
+        let cp := (b0.toNat - 0xE0) * 4096 + (b1.toNat - 0x80) * 64 + (b2.toNat - 0x80)
+        if isCont b1 && isCont b2 && decide (0x800 ≤ cp) && !(decide (0xD800 ≤ cp) && decide (cp < 0xE000)) then
+          (utf8Decode r).map (fun s => Char.ofNat cp :: s)
+        else none
+      | _ => none
+    else if b0.toNat < 0xF5 then
+      match rest with
+      | b1 :: b2 :: b3 :: r =>
+        let cp := (b0.toNat - 0xF0) * 262144 + (b1.toNat - 0x80) * 4096 + (b2.toNat - 0x80) * 64 + (b3.toNat - 0x80)
+        if isCont b1 && isCont b2 && isCont b3 && decide (0x10000 ≤ cp) && decide (cp < 0x110000) then
+          (utf8Decode r).map (fun s => Char.ofNat cp :: s)
+        else none
+      | _ => none
+    else none
+
+/-- `b.decode(codec)` (strict) for the codecs `_build_environ` may name; a codec that is not modelled decodes nothing -/
+def codecDecode : Extracted.WsgiSites.Codec → Bytes → Option Str
+  | .latin1, b => some (latin1 b)
+  | .ascii, b => asciiDecode b
+  | .utf8, b => utf8Decode b
+  | .other _, _ => none
+
+/-- a `.decode()` site as the extractor read it: the codec, strictly (an `errors=` argument is not modelled), and - when the
+    call sits in `try: … except UnicodeDecodeError:` - a second attempt with the fall-back codec; `none` = the error escapes -/
+def decodeWith (d : Extracted.WsgiSites.Decode) (b : Bytes) : Option Str :=
+  match d.errors with
+  | some _ => none
+  | none =>
+    match codecDecode d.codec b with
+    | some s => some s
+    | none =>
+      match d.fallback with
+      | some c => codecDecode c b
+      | none => none
+
+/-- `value = raw_value.decode(…)` in the header loop of `_build_environ`, with the codec the source names now -/
+def headerValue (b : Bytes) : Option Str := decodeWith Extracted.WsgiSites.environHeaderValueDecode b
+
 /-- Python `chr(b).upper()` for a code point below 256 (µ → U+039C, ß → "SS", ÿ → U+0178, à..þ → À..Þ) -/
 def upperL1 (b : UInt8) : Str :=
   let n := b.toNat
@@ -136,7 +191,7 @@ deriving Repr, DecidableEq
 
 inductive EnvErr where
   | invalidPath            -- `InvalidPathError`: path does not start with root_path
-  | unicodeDecodeError     -- `query_string.decode("ascii")`
+  | unicodeDecodeError     -- `query_string.decode("ascii")` (or a header value, should its decode ever be strict in a codec that can fail)
   | typeError              -- `environ[name] + "," + value` on a non-str entry
 deriving Repr, DecidableEq
 
@@ -177,10 +232,13 @@ def headerKey (name : Bytes) : Str :=
 
 /-- one turn of the header loop -/
 def addHeader (e : Environ) (h : Header) : Except EnvErr Environ :=
-  match getKey (headerKey h.1) e with
-  | none => .ok (setKey (headerKey h.1) (.str (latin1 h.2)) e)
-  | some (.str old) => .ok (setKey (headerKey h.1) (.str (old ++ ',' :: latin1 h.2)) e)
-  | some _ => .error .typeError
+  match headerValue h.2 with
+  | none => .error .unicodeDecodeError
+  | some value =>
+    match getKey (headerKey h.1) e with
+    | none => .ok (setKey (headerKey h.1) (.str value) e)
+    | some (.str old) => .ok (setKey (headerKey h.1) (.str (old ++ ',' :: value)) e)
+    | some _ => .error .typeError
 
 deriving instance DecidableEq for Except
 
